@@ -83,6 +83,20 @@ def sk_aspath_wd(ctx):
                    K.a_nexthop(ctx, ext=False), K.a_med(ctx, ext=False)], [K.prefix(ctx, 'n0', 3, False)])
 
 
+def sk_mpunreach(ctx):
+    """an UPDATE which only withdraws, through MP_UNREACH_NLRI, beside one ordinary attribute: the withdrawn routes live INSIDE
+    the attribute block, so a remembered attribute set must not be handed out for the next identical block"""
+    return K.body([], [K.a_origin(ctx, ext=False), K.a_mp_unreach(ctx, 2, 1, (6,), False, ext=False)], [])
+
+
+def sk_as4(ctx):
+    """AS_PATH whose 10 value octets are well formed BOTH as 2-octet (two segments) and as 4-octet (one segment of two)
+    AS numbers, plus AS4_PATH: what the merge gives depends on the session, the bytes do not"""
+    raw = [2, 2] + K.sym(ctx, 'p', 4) + [ctx.int('p.type', 1, 2), 1] + K.sym(ctx, 'q', 2)
+    return K.body([], [K.a_origin(ctx, ext=False), K.attr(ctx, 'aspath', 0x40, 2, raw, ext=False), K.a_nexthop(ctx, ext=False),
+                       K.attr(ctx, 'as4path', 0xC0, 17, [2, 1] + K.sym(ctx, 'r', 4), ext=False)], [K.prefix(ctx, 'n0', 3, False)])
+
+
 def sk_comm(ctx):
     return K.body([], [K.a_origin(ctx, ext=False), K.a_aspath(ctx, segs=(), ext=False), K.a_nexthop(ctx, ext=False), K.a_community(ctx, 1, ext=False),
                        K.a_aggregator(ctx, asn4=True, ext=False)], [K.prefix(ctx, 'n0', 2, False)])
@@ -105,7 +119,7 @@ def sk_aigp(ctx):
                        K.attr(ctx, 'aigp', 0x80, 26, [1, 0, 11] + K.sym(ctx, 'metric', 8), ext=False)], [K.prefix(ctx, 'n0', 3, False)])
 
 
-SHAPES = {'aspath': sk_aspath, 'aspath-wd': sk_aspath_wd, 'comm': sk_comm, 'withdraw': sk_withdraw, 'origin': sk_bad_origin, 'aigp': sk_aigp}
+SHAPES = {'aspath': sk_aspath, 'aspath-wd': sk_aspath_wd, 'mpunreach': sk_mpunreach, 'as4': sk_as4, 'comm': sk_comm, 'withdraw': sk_withdraw, 'origin': sk_bad_origin, 'aigp': sk_aigp}
 PAIRS = [('aspath', 'aspath'), ('comm', 'comm'), ('origin', 'origin'), ('aspath', 'comm'), ('withdraw', 'aspath'), ('origin', 'aspath'),
          ('aspath-wd', 'aspath'), ('aspath', 'aspath-wd')]
 SESSION_PAIRS = [('asn4', 'asn4'), ('asn4', 'asn2'), ('asn2', 'asn4'), ('asn2', 'asn2')]
@@ -270,6 +284,14 @@ def units(tier):
             if th:
                 us.append(Unit('triple/%s-%s/%s-%s' % (p1, p2, s1, s2), lambda ctx, p1=p1, p2=p2, s1=s1, s2=s2: h_pair(ctx, p1, p2, s1, s2, True, third=True),
                                hash_const=True, reset=reset_all, weight=8, max_seconds=300))
+    # round-2 seeds: an attribute set holding MP_UNREACH_NLRI remembered (the withdraws of the second identical block vanish);
+    # the AS_PATH/AS4_PATH merge remembered under a key that forgets the AS number size of the session
+    for (p, pairs) in (('mpunreach', [('asn4', 'asn4')]), ('as4', [('asn2', 'asn4'), ('asn4', 'asn2'), ('asn2', 'asn2')])):
+        for (s1, s2) in pairs:
+            for caching in (False, True):
+                us.append(Unit('pair/%s-%s/%s-%s/%s' % (p, p, s1, s2, 'cache' if caching else 'nocache'),
+                               lambda ctx, p=p, s1=s1, s2=s2, c=caching: h_pair(ctx, p, p, s1, s2, c),
+                               must_cover=('decoded',), hash_const=True, reset=reset_all, weight=8, max_seconds=400))
     for (s1, s2) in AIGP_SESSION_PAIRS:
         for caching in (False, True):
             us.append(Unit('pair/aigp-aigp/%s-%s/%s' % (s1, s2, 'cache' if caching else 'nocache'),
